@@ -27,7 +27,7 @@ ADV = [0, 0.0, -0.0, 1, -1, 2, 0.5, -8, 1e308, -1e308, 5e-324, 1e16, 10 ** 400, 
        1000, -0.5, 3]
 ADV_OTHER = [None, True, 'x', '', datetime.datetime(1, 1, 1), datetime.datetime(9999, 12, 31, 23, 59, 59, 999000),
              datetime.datetime(2024, 3, 10, 2, 30), [], [float('inf')], {'a': float('nan')}, [1, [2, [3]]]]
-OPS = ['+', '-', '*', '/', '%', '**']
+OPS = ['+', '-', '*', '/', '%', '**', '==', '<', '>=']          # comparisons too: arbitrary-precision ints against floats
 
 LIB_REPS = [None, True, 0, 1, -1, 2.5, 1000003, '', 'abc', '[', '{"a":1}', datetime.datetime(2024, 2, 29, 12, 0, 0),
             [], [3, 1, 2], {}, {'a': 1, 'b': [1]}, re.compile('a+'), 'lib:arrayNew']
